@@ -189,10 +189,10 @@ int main( int argc, char** argv )
             for ( int pu = 1; pu <= maxops; ++pu )
                 for ( int po = 1; po <= maxops; ++po )
                 {
-                    if ( !isr && pu + po > ( a.thorough() ? 7 : 5 ) ) continue;
+                    if ( !isr && pu + po > ( a.thorough() ? 6 : 5 ) ) continue;
                     run< 1 >( a, rep, pu, po, prefill, isr, prf, rc );
                     run< 2 >( a, rep, pu, po, prefill, isr, prf, rc );
-                    if ( a.thorough() ) run< 3 >( a, rep, pu, po, prefill, isr, prf, rc );
+                    if ( a.thorough() && ( isr || pu + po <= 5 ) ) run< 3 >( a, rep, pu, po, prefill, isr, prf, rc );
                 }
     if ( prf ) return rc;
     rep.notes[ "bound" ] = "all interleavings (no preemption bound) of the listed producer/consumer programs; scheduling points: every atomic load/store and every element copy";
